@@ -487,6 +487,10 @@ class Exec:
             m = '__eq__' if isinstance(op, ast.Eq) else '__ne__'
             if f'{a.cls}.{m}' in self.reg:
                 return self.call_contract(f'{a.cls}.{m}', [a, b], {}, p, e)
+        if isinstance(a, ObjV) and isinstance(b, ObjV) and isinstance(op, (ast.LtE, ast.Lt)):
+            m = '__le__' if isinstance(op, ast.LtE) else '__lt__'
+            if f'{a.cls}.{m}' in self.reg:
+                return self.call_contract(f'{a.cls}.{m}', [a, b], {}, p, e)
         if isinstance(op, (ast.Is, ast.Eq)):
             return BoolV(self.eq(a, b, isinstance(op, ast.Is)))
         if isinstance(op, (ast.IsNot, ast.NotEq)):
@@ -1340,6 +1344,8 @@ class Exec:
                     bound[n] = ObjV('opaque')
                 elif kind == 'bool=False':
                     bound[n] = BoolV(BoolVal(False))
+                elif kind == 'none':
+                    bound[n] = NONE()
                 else:
                     raise Unsupported(f'missing argument {n} for {qual}@{line}')
         for n, kind in c.params:
